@@ -227,7 +227,18 @@ fn main() {
               )
             })
             .collect();
-          format!("n={} {}", total, if with.is_empty() { "-".to_string() } else { with.join(";") })
+          // labels of the items that carry no additional edit
+          let without: Vec<String> = items
+            .iter()
+            .filter(|i| i.additional_edits.is_empty())
+            .map(|i| hex(i.label.as_bytes()))
+            .collect();
+          format!(
+            "n={} {} plain={}",
+            total,
+            if with.is_empty() { "-".to_string() } else { with.join(";") },
+            if without.is_empty() { "-".to_string() } else { without.join(",") }
+          )
         }
         // fresh analysis of the workspace with one module's text replaced: errors of that module
         // + structural summary of the text
@@ -263,6 +274,27 @@ fn main() {
           show_edits(&hooks::module_diff_edits(&heap, ModuleReference::DUMMY, &old, &new))
         }
         "sum" => summarize(&unhex_str(t[1])),
+        // locations of the toplevels of a text + each rendered the way `to_edit` renders it
+        "tlocs" => {
+          let text = unhex_str(t[1]);
+          let mut heap = Heap::new();
+          let mut es = ErrorSet::new();
+          let m = samlang_parser::parse_source_module_from_text(&text, ModuleReference::DUMMY, &mut heap, &mut es);
+          if es.has_errors() {
+            return "skip".to_string();
+          }
+          if m.toplevels.is_empty() {
+            return "-".to_string();
+          }
+          m.toplevels
+            .iter()
+            .map(|tl| {
+              let printed = samlang_printer::pretty_print_toplevel(&heap, 100, &m.comment_store, tl);
+              format!("{}={}", loc_str(&tl.loc()), hex(printed.trim_end().as_bytes()))
+            })
+            .collect::<Vec<_>>()
+            .join(",")
+        }
         // locations of the imports of a text + each import rendered the way `to_edit` renders it
         "ilocs" => {
           let text = unhex_str(t[1]);
